@@ -11,6 +11,9 @@
 //!   a  as written (early database)
 //!   b  every indexed column wrapped as `(col + 0)`, which the binder does not see through: no index applies
 //!   c  join operands permuted (LEFT <-> RIGHT), ON conjuncts reordered and, for all-inner joins, re-distributed
+//!   f  every table replaced by a derived table over it (columns permuted; for one table part of WHERE moves inside)
+//!   g  the last `column = column` conjunct of the outermost ON clause that has one written `(x + 0) = y`: no equi-join
+//!      key, so no hash or merge join there and no ordering asked of the joins below
 //!   e  as written on the late database (after `mkix`)
 //!   d  the same query again after an `analyze` op of the history (different statistics)
 //!
@@ -212,6 +215,31 @@ pub enum Variant {
     /// table the first conjuncts of WHERE move inside (Filter over Project over Filter: filter push-down through a
     /// projection, filter merge)
     Derived(u64),
+    /// the last `column = column` conjunct (integer columns) of the outermost ON clause that has one is written
+    /// `(x + 0) = y`: that join has no equi-join key any more, so it is neither a hash join nor a merge join and the
+    /// joins below it are not asked for an ordering
+    NoEquiKey,
+}
+
+/// the FROM clause of form `g`; `None` if no ON clause has a `column = column` conjunct over integer columns
+fn defeat_equi(f: &From, tys: &[Ty]) -> Option<From> {
+    let From::Join(k, l, r, on) = f else { return None };
+    if let Some(on) = on {
+        let mut cs = Vec::new();
+        conjuncts(on, &mut cs);
+        let int_col = |e: &E| matches!(e, E::Col(i) if tys.get(*i).copied().map(is_int).unwrap_or(false));
+        let hit = cs.iter().rposition(|c| matches!(c, E::Cmp(op, a, d) if *op == "eq" && int_col(a) && int_col(d)));
+        if let Some(i) = hit {
+            if let E::Cmp(op, a, d) = cs[i].clone() {
+                cs[i] = E::Cmp(op, Box::new(E::Arith("add", a, Box::new(E::Lit(Val::Int(0))))), d);
+            }
+            return Some(From::Join(k, l.clone(), r.clone(), conj(cs)));
+        }
+    }
+    if let Some(l2) = defeat_equi(l, tys) {
+        return Some(From::Join(k, Box::new(l2), r.clone(), on.clone()));
+    }
+    defeat_equi(r, tys).map(|r2| From::Join(k, l.clone(), Box::new(r2), on.clone()))
 }
 
 fn is_int(t: Ty) -> bool {
@@ -526,6 +554,11 @@ pub fn select_sql(q: &Select, db: &[Table], ixs: &[Ix], v: Variant) -> Option<St
     let col = col_printer(&ls, db, ixs, wrap);
     let mut where_override: Option<Vec<E>> = None;
     let (from_sql, extra_where) = match v {
+        Variant::NoEquiKey => {
+            let f = defeat_equi(&q.from, &from_tys(&q.from, db))?;
+            let mut next = 0;
+            (sql_from_plain(&f, db, &mut next, &col), vec![])
+        }
         Variant::Permuted(seed) => sql_from_permuted(&q.from, db, seed, &col)?,
         Variant::Derived(seed) => {
             let (s, outside) = sql_from_derived(&q.from, db, seed, &q.where_, &col);
@@ -860,12 +893,45 @@ fn digest(explain: &Result<String, String>) -> String {
     }
 }
 
+/// Does every operator of the plan get its inputs in the ordering it requires?  The rule is the specification's
+/// (`Plan.leads`, Thm.C06.ordering_satisfies_iff_prefix): the required keys are the first keys the input declares.
+/// Returns the first operator that does not; `edges` counts the inputs an ordering is required of.
+fn lacks_ordering(p: &vp::VPhys, edges: &mut usize) -> Option<String> {
+    for (i, c) in p.children.iter().enumerate() {
+        let req = p.requires.get(i).cloned().unwrap_or_default();
+        if !req.is_empty() {
+            *edges += 1;
+            let ok = req.len() <= c.delivers.len() && req.iter().zip(&c.delivers).all(|((col, asc), d)| *d == vp::VOrdKey::Col(*col, *asc));
+            if !ok {
+                let show = |ks: &[vp::VOrdKey]| {
+                    ks.iter()
+                        .map(|k| match k {
+                            vp::VOrdKey::Col(c, true) => format!("a{}", c),
+                            vp::VOrdKey::Col(c, false) => format!("d{}", c),
+                            vp::VOrdKey::Expr(true) => "x".into(),
+                            vp::VOrdKey::Expr(false) => "y".into(),
+                        })
+                        .collect::<Vec<_>>()
+                        .join(",")
+                };
+                let reqs = req.iter().map(|(c, asc)| format!("{}{}", if *asc { "a" } else { "d" }, c)).collect::<Vec<_>>().join(",");
+                return Some(format!("{}.input{}:requires={}:{}-delivers={}", p.op, i, reqs, c.op, if c.delivers.is_empty() { "-".into() } else { show(&c.delivers) }));
+            }
+        }
+        if let Some(x) = lacks_ordering(c, edges) {
+            return Some(x);
+        }
+    }
+    None
+}
+
 fn variant_name(v: Variant) -> &'static str {
     match v {
         Variant::AsWritten => "a",
         Variant::NoIndex => "b",
         Variant::Permuted(_) => "c",
         Variant::Derived(_) => "f",
+        Variant::NoEquiKey => "g",
     }
 }
 
@@ -928,6 +994,7 @@ pub fn run_case(line: &str, run_queries: bool) -> Outcome {
     };
     let fail = |what: String| Outcome { line: format!("setup-failed ## {} {:?}", what, take_worker_panic()), facts: BTreeMap::new() };
     let seed = case_seed(line);
+    vp::record_plans(true);
     let mut early = Inst::new();
     if let Err(e) = early.create_tables(&tables).and_then(|_| early.create_indexes(&ixs)).and_then(|_| early.load(&tables)) {
         return fail(format!("early {}", e));
@@ -1048,9 +1115,13 @@ pub fn run_case(line: &str, run_queries: bool) -> Outcome {
                     Variant::NoIndex,
                     Variant::Permuted(seed ^ opno as u64),
                     Variant::Derived(seed ^ opno as u64 ^ 0x5bd1e995),
+                    Variant::NoEquiKey,
                 ];
                 let mut results: Vec<(String, String)> = Vec::new(); // (form name, canonical result)
                 let mut digs: Vec<(String, String)> = Vec::new();
+                // forms whose chosen plan feeds an operator an input that does not declare the ordering it requires
+                let mut unordered: Vec<(String, String)> = Vec::new();
+                let mut ord_edges = 0usize;
                 let sql_a = select_sql(q, &tables, &ixs, Variant::AsWritten).unwrap_or_default();
                 for v in forms {
                     let Some(sql) = select_sql(q, &tables, &ixs, v) else { continue };
@@ -1058,19 +1129,36 @@ pub fn run_case(line: &str, run_queries: bool) -> Outcome {
                         continue;
                     }
                     let name = variant_name(v).to_string();
+                    let _ = vp::take_last_plan();
                     digs.push((name.clone(), digest(&early.db().explain(&sql).map_err(|e| e.to_string()))));
+                    if let Some(p) = vp::take_last_plan() {
+                        let mut edges = 0;
+                        if let Some(what) = lacks_ordering(&p, &mut edges) {
+                            unordered.push((name.clone(), what));
+                        }
+                        ord_edges += edges;
+                    }
                     if run_queries {
                         results.push((name, canon_result(early.run(&sql), Some(q))));
                     }
                 }
                 if let Some(l) = late.as_mut() {
                     if l.has_ix {
+                        let _ = vp::take_last_plan();
                         digs.push(("e".into(), digest(&l.db().explain(&sql_a).map_err(|e| e.to_string()))));
+                        if let Some(p) = vp::take_last_plan() {
+                            let mut edges = 0;
+                            if let Some(what) = lacks_ordering(&p, &mut edges) {
+                                unordered.push(("e".into(), what));
+                            }
+                            ord_edges += edges;
+                        }
                         if run_queries {
                             results.push(("e".into(), canon_result(l.run(&sql_a), Some(q))));
                         }
                     }
                 }
+                bump("ordering-required", ord_edges);
                 let da = digs[0].1.clone();
                 for (n, d) in &digs[1..] {
                     bump("pairs", 1);
@@ -1104,9 +1192,10 @@ pub fn run_case(line: &str, run_queries: bool) -> Outcome {
                 diags.push(format!("q{}:{}", opno, digs.iter().map(|(n, d)| format!("{}={}", n, d)).collect::<Vec<_>>().join("|")));
                 if run_queries {
                     let a = results[0].1.clone();
-                    match results.iter().find(|(_, r)| *r != a) {
-                        None => outs.push(format!("same {}", a)),
-                        Some((n, r)) => outs.push(format!("PROPFAIL variant={} a={} {}={}", n, a, n, r)),
+                    match (unordered.first(), results.iter().find(|(_, r)| *r != a)) {
+                        (Some((n, what)), _) => outs.push(format!("PROPFAIL variant={} input-not-ordered {}", n, what)),
+                        (None, None) => outs.push(format!("same {}", a)),
+                        (None, Some((n, r))) => outs.push(format!("PROPFAIL variant={} a={} {}={}", n, a, n, r)),
                     }
                 } else {
                     outs.push("-".into());
@@ -1486,6 +1575,112 @@ fn run_rule_case(line: &str) -> String {
             .collect::<Vec<_>>()
             .join(" ; "),
     }
+}
+
+// ------------------------------------------------------------------------------------------------ ordering cases
+
+/// `ord <DELIVERED> <REQUIRED>` → `sat` / `unsat`: `PhysicalProperties::satisfies` through the facade
+/// (`verif::plan::ordering_satisfies`); syntax in `lean/AxVerif/Driver/Plan.lean`.
+fn run_ord_case(line: &str) -> String {
+    let ws: Vec<&str> = line.split_whitespace().collect();
+    if ws.len() != 3 || ws[0] != "ord" {
+        return "bad-op".into();
+    }
+    let key = |w: &str| -> Option<(usize, bool)> {
+        let asc = match w.chars().next()? {
+            'a' => true,
+            'd' => false,
+            _ => return None,
+        };
+        let n = &w[1..];
+        if n.is_empty() || n.len() > 7 || !n.bytes().all(|b| b.is_ascii_digit()) {
+            return None;
+        }
+        Some((n.parse().ok()?, asc))
+    };
+    let mut delivered: Vec<vp::VOrdKey> = Vec::new();
+    if ws[1] != "-" {
+        for w in ws[1].split(',') {
+            match w {
+                "x" => delivered.push(vp::VOrdKey::Expr(true)),
+                "y" => delivered.push(vp::VOrdKey::Expr(false)),
+                _ => match key(w) {
+                    Some((c, asc)) => delivered.push(vp::VOrdKey::Col(c, asc)),
+                    None => return "bad-op".into(),
+                },
+            }
+        }
+    }
+    let mut required: Vec<(usize, bool)> = Vec::new();
+    if ws[2] != "-" {
+        for w in ws[2].split(',') {
+            match key(w) {
+                Some(k) => required.push(k),
+                None => return "bad-op".into(),
+            }
+        }
+    }
+    if vp::ordering_satisfies(&delivered, &required) { "sat".into() } else { "unsat".into() }
+}
+
+/// random pairs of orderings, most of them near the boundary: one a prefix of the other, equal, or differing in one
+/// key's column, direction or kind
+fn gen_ord_case(rng: &mut Rng) -> Case {
+    let mut tags: Vec<String> = vec!["ord".into()];
+    let show_r = |k: &(usize, bool)| format!("{}{}", if k.1 { "a" } else { "d" }, k.0);
+    let n = *rng.pick(&[0usize, 1, 1, 2, 2, 2, 3, 3, 4]);
+    let base: Vec<(usize, bool)> = (0..n).map(|_| (rng.below(5) as usize, rng.chance(4, 5))).collect();
+    let mut required = base.clone();
+    let mut delivered: Vec<String> = base.iter().map(show_r).collect();
+    let shape = rng.below(10);
+    match shape {
+        0 | 1 => tags.push("ord.equal".into()),
+        2 | 3 => {
+            // the delivered ordering goes on
+            tags.push("ord.delivered-longer".into());
+            for _ in 0..rng.range(1, 2) {
+                delivered.push(if rng.chance(1, 5) { "x".into() } else { show_r(&(rng.below(5) as usize, rng.chance(4, 5))) });
+            }
+        }
+        4..=6 => {
+            // the required ordering goes on: the delivered one is a proper prefix of it
+            tags.push("ord.required-longer".into());
+            for _ in 0..rng.range(1, 2) {
+                required.push((rng.below(5) as usize, rng.chance(4, 5)));
+            }
+        }
+        7 | 8 => {
+            // one delivered key differs
+            tags.push("ord.one-key-differs".into());
+            if !delivered.is_empty() {
+                let i = rng.below(delivered.len() as u64) as usize;
+                let (c, asc) = base[i];
+                delivered[i] = match rng.below(4) {
+                    0 => show_r(&(c, !asc)),
+                    1 => show_r(&(c + 1, asc)),
+                    2 => if asc { "x".into() } else { "y".into() },
+                    _ => show_r(&(rng.below(5) as usize, rng.chance(1, 2))),
+                };
+                if rng.chance(1, 3) {
+                    required.push((rng.below(5) as usize, true));
+                }
+            }
+        }
+        _ => {
+            tags.push("ord.unrelated".into());
+            delivered = (0..rng.below(4)).map(|_| show_r(&(rng.below(5) as usize, rng.chance(1, 2)))).collect();
+        }
+    }
+    if required.is_empty() {
+        tags.push("ord.nothing-required".into());
+    }
+    if delivered.is_empty() {
+        tags.push("ord.nothing-delivered".into());
+    }
+    let d = if delivered.is_empty() { "-".to_string() } else { delivered.join(",") };
+    let r = if required.is_empty() { "-".to_string() } else { required.iter().map(show_r).collect::<Vec<_>>().join(",") };
+    tags.push("nt".into());
+    Case { line: format!("ord {} {}", d, r), tags }
 }
 
 // generator of rule-level cases
@@ -2861,7 +3056,174 @@ fn b2(f: From) -> Box<From> {
     Box::new(f)
 }
 
+/// Family "join chains over a shared key" (what a sort enforcer is for).  Three small tables without indexes,
+/// `T ⋈ U ON T.a = U.x ⋈ V ON <keys>` where the keys of the upper join
+///   prefix    start with the left key(s) of the lower join and go on with a further column (`T.a = V.y AND T.b = V.z`):
+///             stacked merge joins, the lower one delivers `[a]`, the upper one needs `[a, b]`
+///   same      are exactly the left key(s) of the lower join (nothing to sort)
+///   reversed  hold the lower join's key last (`T.b = V.z AND T.a = V.y`)
+///   disjoint  do not hold it at all.
+/// The first key column has few distinct values (duplicates), the further columns come in no particular order, and
+/// rows inserted later by the history land behind the loaded ones.  INNER / LEFT mostly, RIGHT / FULL sometimes.
+/// The query runs before and after ANALYZE (small tables: nested loops afterwards) and once more after further
+/// INSERTs; every run in the forms a, c, f, g (g takes the merge key away).
+fn gen_chain_case(rng: &mut Rng) -> (String, BTreeSet<String>) {
+    let mut tags: BTreeSet<String> = BTreeSet::new();
+    let mut tag = |t: &str| {
+        tags.insert(t.to_string());
+    };
+    tag("fam.chain");
+    tag("shape.few-relations");
+    let with_nulls = rng.chance(1, 4);
+    if with_nulls {
+        tag("chain.null-keys");
+    }
+    // key domains: few values for the first key, a few more for the others
+    let base: i128 = rng.range(-2, 6) as i128;
+    let dom_a = rng.range(2, 3) as i128;
+    let dom_b = rng.range(2, 5) as i128;
+    let widths = [rng.range(3, 4) as usize, rng.range(3, 4) as usize, rng.range(3, 4) as usize];
+    let sizes = [rng.range(4, 12) as usize, rng.range(1, 5) as usize, rng.range(3, 10) as usize];
+    let mut db: Vec<Table> = Vec::new();
+    let key_val = |rng: &mut Rng, c: usize| -> Val {
+        if with_nulls && rng.chance(1, 10) {
+            return Val::Null;
+        }
+        // column 1 is the "first key" column of every table, the others are further keys
+        let d = if c == 1 { dom_a } else { dom_b };
+        Val::Int(base + rng.below(d as u64) as i128)
+    };
+    for k in 0..3 {
+        let mut tys = vec![Ty::Int];
+        for _ in 1..widths[k] {
+            tys.push(if rng.chance(1, 8) { Ty::BigInt } else { Ty::Int });
+        }
+        let rows: Vec<Vec<Val>> =
+            (0..sizes[k]).map(|i| (0..widths[k]).map(|c| if c == 0 { Val::Int(i as i128 + 1) } else { key_val(rng, c) }).collect()).collect();
+        db.push(Table { tys, rows });
+    }
+    let (w0, w1) = (widths[0], widths[1]);
+    let (o1, o2) = (w0, w0 + w1);
+    // lower join: T.a = U.x [AND T.b = U.y]
+    let eq = |rng: &mut Rng, l: usize, r: usize| if rng.chance(1, 4) { cmp("eq", E::Col(r), E::Col(l)) } else { cmp("eq", E::Col(l), E::Col(r)) };
+    let mut lower_left: Vec<usize> = vec![1];
+    let mut lower: Vec<E> = vec![eq(rng, 1, o1 + 1)];
+    if rng.chance(1, 5) {
+        tag("chain.lower-2keys");
+        lower_left.push(2);
+        lower.push(eq(rng, 2, o1 + 2));
+    }
+    // upper join
+    let further: Vec<usize> = (1..w0).filter(|c| !lower_left.contains(c)).collect();
+    let extra_left = if further.is_empty() || rng.chance(1, 6) { o1 + 2 } else { *rng.pick(&further) };
+    let vcols: Vec<usize> = (1..widths[2]).collect();
+    let shape = match rng.below(10) {
+        0..=5 => "prefix",
+        6 => "same",
+        7 | 8 => "reversed",
+        _ => "disjoint",
+    };
+    tag(&format!("chain.{}", shape));
+    let mut upper_pairs: Vec<(usize, usize)> = Vec::new(); // (column of T ⋈ U, column of V)
+    let shared: Vec<(usize, usize)> = lower_left.iter().enumerate().map(|(i, l)| (*l, o2 + vcols[i % vcols.len()])).collect();
+    let extra = (extra_left, o2 + vcols[lower_left.len() % vcols.len()]);
+    match shape {
+        "prefix" => {
+            upper_pairs.extend(shared);
+            upper_pairs.push(extra);
+        }
+        "same" => upper_pairs.extend(shared),
+        "reversed" => {
+            upper_pairs.push(extra);
+            upper_pairs.extend(shared);
+        }
+        _ => upper_pairs.push(extra),
+    }
+    let upper: Vec<E> = upper_pairs.iter().map(|(l, r)| eq(rng, *l, *r)).collect();
+    let kind = |rng: &mut Rng| *rng.pick(&["inner", "inner", "inner", "inner", "inner", "left", "left", "left", "left", "right", "full"]);
+    let (k_low, k_up) = (kind(rng), kind(rng));
+    tag(&format!("chain.lower.{}", k_low));
+    tag(&format!("chain.upper.{}", k_up));
+    tag(&format!("join.{}", k_low));
+    tag(&format!("join.{}", k_up));
+    tag("q.join3");
+    let from = From::Join(k_up, b2(From::Join(k_low, b2(From::Table(0)), b2(From::Table(1)), conj(lower))), b2(From::Table(2)), conj(upper));
+    let w = widths.iter().sum::<usize>();
+    let where_ = if rng.chance(1, 3) {
+        tag("where.one-side");
+        let c = rng.below(w as u64) as usize;
+        Some(match rng.below(3) {
+            0 => cmp("le", E::Col(0), lit_i(rng.range(2, 9) as i128)),
+            1 => cmp(*rng.pick(&["ge", "lt", "ne"]), E::Col(c), lit_i(base + rng.range(0, 2) as i128)),
+            _ => E::IsNull(true, b(E::Col(c))),
+        })
+    } else {
+        None
+    };
+    let mut q = Select { distinct: false, from, where_, group_by: vec![], aggs: vec![], items: None, order_by: vec![], limit: None, offset: None, having: None };
+    match rng.below(8) {
+        0 => {
+            tag("q.agg");
+            q.aggs.push(super::sql::Agg { f: "cnt*", arg: None });
+        }
+        1..=4 => {
+            // the three row ids: which rows were paired
+            q.items = Some(vec![E::Col(0), E::Col(o1), E::Col(o2)]);
+            if rng.chance(1, 4) {
+                tag("q.orderby.total");
+                q.order_by = vec![(0, rng.chance(1, 2)), (1, true), (2, rng.chance(1, 2))];
+            }
+        }
+        _ => {}
+    }
+    let mut ops: Vec<Op> = Vec::new();
+    let mut next_id: Vec<i128> = sizes.iter().map(|n| *n as i128 + 1).collect();
+    let mut insert = |rng: &mut Rng, t: usize, ops: &mut Vec<Op>| {
+        let n = rng.range(1, 3);
+        let mut rows = Vec::new();
+        for _ in 0..n {
+            let row: Vec<E> = (0..widths[t])
+                .map(|c| {
+                    if c == 0 {
+                        next_id[t] += 1;
+                        lit_i(next_id[t] - 1)
+                    } else {
+                        E::Lit(key_val(rng, c))
+                    }
+                })
+                .collect();
+            rows.push(row);
+        }
+        ops.push(Op::Stmt(Stmt::Insert(t, rows)));
+    };
+    // rows that arrive later: behind the loaded ones whatever their keys
+    if rng.chance(1, 3) {
+        tag("chain.history");
+        let t = *rng.pick(&[0usize, 0, 2]);
+        insert(rng, t, &mut ops);
+        if rng.chance(1, 3) {
+            ops.push(Op::Stmt(Stmt::Delete(t, Some(cmp("eq", E::Col(0), lit_i(rng.range(1, 3) as i128))))));
+        }
+    }
+    ops.push(Op::Stmt(Stmt::Select(q.clone())));
+    tag("q.around-analyze");
+    ops.push(Op::Analyze(1000, 10000));
+    ops.push(Op::Stmt(Stmt::Select(q.clone())));
+    if rng.chance(1, 2) {
+        tag("q.around-dml");
+        let t = *rng.pick(&[0usize, 0, 1, 2]);
+        insert(rng, t, &mut ops);
+        ops.push(Op::Stmt(Stmt::Select(q)));
+    }
+    drop(insert);
+    drop(tag);
+    (show_case(&db, &[], &ops), tags)
+}
+
 fn gen_case(rng: &mut Rng) -> (String, BTreeSet<String>) {
+    if rng.chance(1, 10) {
+        return gen_chain_case(rng);
+    }
     let region = match rng.below(50) {
         0..=5 => Region::UpdateIndexed,
         6 | 7 => Region::ReinsertInRollback,
@@ -3050,6 +3412,12 @@ fn gen_all(rng: &mut Rng, tier: Tier) -> Vec<Case> {
         })
         .collect();
     all.extend(rule_cases);
+    let nord = match tier {
+        Tier::Quick => 400,
+        Tier::Thorough => 4000,
+    };
+    let mut orng = rng.fork("orderings");
+    all.extend((0..nord).map(|_| gen_ord_case(&mut orng)));
     all
 }
 
@@ -3069,6 +3437,9 @@ impl Engine for PlanEngine {
         install_worker_panic_recorder();
         if line.starts_with("rule ") {
             return run_rule_case(line);
+        }
+        if line.starts_with("ord ") {
+            return run_ord_case(line);
         }
         if let Some(rest) = line.strip_prefix("measure ") {
             let o = run_case(rest, false);
